@@ -192,8 +192,12 @@ func execC18(t *testing.T, p Plan, src kernel.Source) Result {
 		// start a fresh period and take the counters' baseline (unmanaged: no run flags yet)
 		base := readMetrics()
 		w.Run.ManagePkgs = []string{"/metrics"}
-		w.Run.YieldAtomics = true
+		// half of the runs interleave at atomic-operation granularity, the other half only
+		// at lock granularity (an observation is then two scheduling points, which makes
+		// "a whole observation between the reader's unlock and its next step" likely)
+		w.Run.YieldAtomics = p.X["coarse"] == 0
 		w.Run.YieldPrefix = "obs"
+		w.Run.YieldAfterUnlock = true
 		type task struct {
 			name string
 			vals []uint64 // observations (interleaved with counter increments of the same amount)
@@ -210,6 +214,7 @@ func execC18(t *testing.T, p Plan, src kernel.Source) Result {
 		reader := &task{name: "reader"}
 		var snaps []metricsSnapshot
 		var incSum uint64
+		lastOwner := ""
 		startObs := func(tk *task) {
 			v := tk.vals[tk.next]
 			tk.next++
@@ -246,11 +251,11 @@ func execC18(t *testing.T, p Plan, src kernel.Source) Result {
 			for _, tk := range obsTasks {
 				tk := tk
 				if !tk.busy && tk.next < len(tk.vals) {
-					evs = append(evs, kernel.Event{Label: "observe " + tk.name, Do: func() { startObs(tk) }})
+					evs = append(evs, kernel.Event{Label: "observe " + tk.name, Owner: tk.name, Do: func() { startObs(tk) }})
 				}
 			}
 			if !reader.busy && reads > 0 {
-				evs = append(evs, kernel.Event{Label: "read", Do: func() {
+				evs = append(evs, kernel.Event{Label: "read", Owner: "reader", Do: func() {
 					reads--
 					reader.busy = true
 					reader.done = make(chan struct{})
@@ -274,11 +279,25 @@ func execC18(t *testing.T, p Plan, src kernel.Source) Result {
 				}
 				break
 			}
-			evs[w.Ch.Choose(len(evs), "event")].Do()
+			// sticky policy: with probability 3/4 keep serving the task served last
+			pickI := -1
+			if lastOwner != "" && !w.Ch.Bool(1, 4, "switch") {
+				for i, ev := range evs {
+					if ev.Owner == lastOwner {
+						pickI = i
+						break
+					}
+				}
+			}
+			if pickI < 0 {
+				pickI = w.Ch.Choose(len(evs), "event")
+			}
+			lastOwner = evs[pickI].Owner
+			evs[pickI].Do()
 		}
 		// final read closes the last period
 		lockLog := append([]hub.LockEvent(nil), w.Run.LockLog...)
-		w.Run.ManagePkgs, w.Run.YieldAtomics = nil, false
+		w.Run.ManagePkgs, w.Run.YieldAtomics, w.Run.YieldAfterUnlock = nil, false, false
 		final := readMetrics()
 		snaps = append(snaps, final)
 		// periods from the lock log of the harness histogram's lock
@@ -511,7 +530,8 @@ func genC18(seed uint64, tier string) Plan {
 			}
 			p.XV = append(p.XV, vs)
 		}
-		p.X["reads"] = int64(g.n(3))
+		p.X["reads"] = int64(g.n(4))
+		p.X["coarse"] = int64(g.n(2))
 	}
 	return p
 }
